@@ -6,7 +6,6 @@ _B = 'src/interrogate/interrogateBuilder.cxx'
 # auto-generated stubs turn any attempt to grow a string beyond it into a failed assertion instead of a symbolic-size malloc
 SSO_ONLY = ['_ZNSt7__cxx1112basic_stringIcSt11char_traitsIcESaIcEE9_M_mutateEmmPKcm',
             '_ZNSt7__cxx1112basic_stringIcSt11char_traitsIcESaIcEE9_M_createERmm']
-# the last-resort loop of hash_function_signature appends 'a'..'z': with KMAX remaps at most KMAX-1 letters can be taken
 HARNESSES = [
  {'id': 'c03_hash_string',
   'property': 'C03',
@@ -30,6 +29,17 @@ HARNESSES = [
             'canonical identifiers, every alphanumeric character kept in order',
   'bounds': {'quick': {'defs': {'LMAX': 5}, 'unwind': 8, 'cap': 600},
              'thorough': {'defs': {'LMAX': 8}, 'unwind': 11, 'cap': 3000}}},
+ {'id': 'c03_safe_name_injective',
+  'property': 'C03',
+  'src': 'c03_names.cxx',
+  'entry': 'harness_c03_safe_name_injective',
+  'tus': [_B],
+  'cut': SSO_ONLY,
+  'desc': 'clean_identifier / make_safe_name must keep distinct scoped C++ names distinct (they become Dtool_<name> symbols)',
+  'domain': 'two distinct scoped names of 1..SMAX characters: identifiers over {a, b} with single inner underscores (no reserved '
+            'spellings), joined by ::',
+  'oracle': 'the two cleaned names differ',
+  'bounds': {'quick': {'defs': {'SMAX': 4}, 'unwind': 7, 'cap': 600}}},
 ] + [
  {'id': 'c03_hash_signature_k%d_p%d%s' % (k, p1, '' if k == 3 else '_%d' % lo),
   'property': 'C03',
